@@ -275,7 +275,7 @@ func PatternMatchVariance(counters, pattern []int, maxIndividualVariance float64
 	if total < patternLength {
 		// If we don't even have one pixel per unit of bar width, assume this is too small
 		// to reliably match, so fail:
-		math.Inf(1)
+		return math.Inf(1)
 	}
 
 	unitBarWidth := float64(total) / float64(patternLength)
